@@ -28,7 +28,10 @@ comments at the definitions in `Model/HybFree.lean`):
     is popped by a statement that names it, or removed by a constant `?:` whose dead arm names it;
  4. the text of the arity error (`"macro arity"` / `"arity"`);
  5. expression statements and `return` exist in the hybrid model only;
- 6. immediates of an assignment target are registered by the pure model only (such targets are rejected by both).
+ 6. immediates of an assignment target are registered by the pure model only (such targets are rejected by both);
+ 7. a `for` loop whose counter is declared with another type than ut32 (`int i; for (i = 0; …)`): the hybrid model
+    initialises and steps the counter in its declared type (`loopVarTy`, `forInitH`), the pure model hardcodes the
+    undeclared special identifiers' ut32 (`HybFreeS` requires `loopVarTy v c == utT`; witness in `Props/LoopTy.lean`).
 -/
 namespace Rzil
 open HEqv
